@@ -32,6 +32,23 @@ func (c *Chain) AddApp(name string) uint64 {
 	panic("app not found after creation")
 }
 
+// AddAppWithGenesisToken registers an app whose genesis-minting token list contains assetID.
+func (c *Chain) AddAppWithGenesisToken(name string, assetID uint64, recipient string) uint64 {
+	zero := sdk.ZeroInt()
+	err := c.App.AssetKeeper.AddAppRecords(c.Ctx, assettypes.AppData{Name: name, ShortName: name, MinGovDeposit: sdk.NewInt(0), GovTimeInSeconds: 0,
+		GenesisToken: []assettypes.MintGenesisToken{{AssetId: assetID, GenesisSupply: zero, IsGovToken: false, Recipient: recipient}}})
+	if err != nil {
+		panic(fmt.Errorf("AddApp %s: %w", name, err))
+	}
+	apps, _ := c.App.AssetKeeper.GetApps(c.Ctx)
+	for _, a := range apps {
+		if a.Name == name {
+			return a.Id
+		}
+	}
+	panic("app not found after creation")
+}
+
 // AddAsset registers an asset (decimals = 10^decExp) and sets its price.
 func (c *Chain) AddAsset(name, denom string, decExp int, price uint64, oracle bool) uint64 {
 	err := c.App.AssetKeeper.AddAssetRecords(c.Ctx, assettypes.Asset{Name: name, Denom: denom, Decimals: Pow10(decExp), IsOnChain: true, IsOraclePriceRequired: oracle, IsCdpMintable: true})
